@@ -305,24 +305,35 @@ def check_rescale(s, rule="C13.5"):
                  detail=show(space or NONE, maxlen=200))
         if n == 0:
             raise AnalysisError(f"{cls}.__init__: no non-raising path")
-    # clip wrappers
+    # clip wrappers: the stored `func` is compared extensionally (applied to a symbolic argument), so a lambda, a nested def, a
+    # functools.partial and a module-level helper are all the same function
+    from .util import apply_fn
+
+    def applied(func, sym):
+        try:
+            return nzu.canon(apply_fn(bu, func, (sym,))) if func is not None else None
+        except AnalysisError:
+            return None
+
     for pp in live(s.paths(bu, "ClipAction", "__init__")):
         func = pp.self_attrs.get("func")
-        ok = False
-        if isinstance(func, Closure):
-            out = bu.apply(func, (("param", "$a"),), ())
-            ok = nzu.canon(out) == nzu.canon(s.ref(bu, "jnp.clip(a, env.action_space.low, env.action_space.high)", {"a": ("param", "$a"), "env": ("param", "env")}))
+        got = applied(func, ("param", "$a"))
+        ok = got is not None and got == nzu.canon(s.ref(bu, "jnp.clip(a, env.action_space.low, env.action_space.high)", {"a": ("param", "$a"), "env": ("param", "env")}))
         s.ob(rule, "ClipAction.__init__", ok, "ClipAction.func == clip(·, inner low, inner high)", s.loc("ClipAction", "__init__"), key="clip-action", detail=repr(func),
              necessary_for="action wrappers feed the inner environment the action clipped to ITS bounds")
     for pp in live(s.paths(bu, "ClipObservation", "__init__")):
         func = pp.self_attrs.get("func")
-        want = s.ref(bu, "partial(jnp.clip, min=env.observation_space.low, max=env.observation_space.high)", {"env": ("param", "env"), "partial": ("global", "functools.partial")})
-        s.ob(rule, "ClipObservation.__init__", nzu.canon(func) == nzu.canon(want) and pp.self_attrs.get("observation_space") == ("attr", ("param", "env"), "observation_space"),
+        got = applied(func, ("param", "$o"))
+        want = nzu.canon(s.ref(bu, "jnp.clip(o, env.observation_space.low, env.observation_space.high)", {"o": ("param", "$o"), "env": ("param", "env")}))
+        s.ob(rule, "ClipObservation.__init__", got is not None and got == want and pp.self_attrs.get("observation_space") == ("attr", ("param", "env"), "observation_space"),
              "ClipObservation clips with, and advertises, the inner observation space", s.loc("ClipObservation", "__init__"), key="clip-observation", detail=show(func or NONE, maxlen=160))
     for pp in live(s.paths(bu, "ClipReward", "__init__")):
         func = pp.self_attrs.get("func")
-        want = s.ref(bu, "partial(jnp.clip, min=min, max=max)", {"min": ("param", "min"), "max": ("param", "max"), "partial": ("global", "functools.partial")})
-        s.ob(rule, "ClipReward.__init__", nzu.canon(func) == nzu.canon(want), "ClipReward.func == clip(·, min, max)", s.loc("ClipReward", "__init__"), key="clip-reward",
+        got = applied(func, ("param", "$r"))
+        want = nzu.canon(s.ref(bu, "jnp.clip(r, min, max)", {"r": ("param", "$r"), "min": ("param", "min"), "max": ("param", "max")}))
+        # the bounds may be the arguments or the like-named attributes they were just stored in
+        want2 = nzu.canon(s.ref(bu, "jnp.clip(r, self.min, self.max)", {"r": ("param", "$r"), "self": ("param", "self")}))
+        s.ob(rule, "ClipReward.__init__", got is not None and got in (want, want2), "ClipReward.func == clip(·, min, max)", s.loc("ClipReward", "__init__"), key="clip-reward",
              detail=show(func or NONE, maxlen=160))
 
 
